@@ -14,6 +14,7 @@ fn main() {
         "replay" => trapset::replay(rest),
         "random" => trapset::random(rest),
         "redo" => trapset::redo(rest),
+        "midop" => trapset::midop(rest),
         "shell" => shellrun::shell(rest),
         "shell1" => shellrun::shell1(rest),
         other => {
